@@ -555,10 +555,10 @@ def unit(args: dict) -> dict:
 def run(prop: str, tier: str, seed: int) -> int:
     t0 = time.time()
     q = tier == "quick"
-    defs = (pyapi.family_P(seed, 10 if q else 150) + pyapi.family_P(seed + 1, 10 if q else 150, rich=True)
-            + pyapi.family_P(seed + 2, 6 if q else 80, dup_names=True) + pyapi.family_P(seed + 3, 4 if q else 60, dup_names=True, rich=True))
+    defs = (pyapi.family_P(seed, 10 if q else 70) + pyapi.family_P(seed + 1, 10 if q else 70, rich=True)
+            + pyapi.family_P(seed + 2, 6 if q else 40, dup_names=True) + pyapi.family_P(seed + 3, 4 if q else 30, dup_names=True, rich=True))
     units: List[dict] = [{"kind": "override"}]
-    for i in range(3 if q else 24):
+    for i in range(3 if q else 8):
         units.append({"kind": "bind", "seed": seed * 31 + i, "choices": 40 if q else 0})
     for i, a in enumerate(defs):
         units.append({"kind": "styles", "defs": [a], "engine": "sync" if i % 2 == 0 else "async", "max_states": 40 if q else 300})
